@@ -44,7 +44,7 @@ def gen(ch, prof):
                                           ("complete_id", 1), ("mark_complete", 1), ("mark_canceled", 1),
                                           ("reload_jobs", 1), ("read", 1), ("sleep", 2), ("rogue_complete_id", 1),
                                           ("takeover", 1), ("prepare_resubmit", 3), ("crash_write", 1),
-                                          ("rogue_cfg_write", 1)]),
+                                          ("rogue_cfg_write", 1), ("rogue_update", 1)]),
                         "a": g.rint(0, 7), "b": g.rint(0, 7), "d": g.pick([0.0, 0.1, 1.0, 3.0])})
         handles.append({"host": hosts[g.rint(0, len(hosts) - 1)], "ops": ops, "start": g.pick([0.0, 0.0, 0.3, 2.0])})
     if g.flip(0.2):
@@ -59,7 +59,7 @@ def gen(ch, prof):
                 h["ops"] = [mk("load_p")] + [mk("update", g.pick([0.0, 0.1])) for _ in range(g.rint(0, 2))] + [mk("crash_write", g.pick([0.0, 0.1, 1.0]))]
                 h["start"] = 0.0
             else:
-                h["ops"] = ([mk("load", g.pick([0.1, 1.0, 3.0]))] + [mk(g.pick(["rogue_cfg_write", "sleep", "load", "read"]), g.pick([0.1, 1.0, 3.0]))
+                h["ops"] = ([mk("load", g.pick([0.1, 1.0, 3.0]))] + [mk(g.pick(["rogue_cfg_write", "sleep", "load", "read", "rogue_update"]), g.pick([0.1, 1.0, 3.0]))
                                                                     for _ in range(g.rint(1, 4))]
                             + [mk("rogue_cfg_write", 1.0), mk("load_p"), mk("update"), mk("rogue_cfg_write")])
                 h["start"] = g.pick([0.0, 0.05, 0.3])
@@ -454,6 +454,16 @@ def runner(scenario, prof, seed, trace=None, then_generate=False, props=()):
                         else:
                             name = "mark_canceled"
                             w.probe("rogue_stale_cfg_write_attempted")
+                    if name == "rogue_update":
+                        # ... and for a two-file write from a copy that is out of date in the job status only
+                        # (another handle's complete_hpc_job_id since): rejected, and *neither* file changes
+                        if (c is None or promoted or c.job_status is None or mon.model is None or mon.unreadable
+                                or mon.crashed or mon.model.cv != c.config.version
+                                or mon.model.jv == c.job_status.version):
+                            name = "load"
+                        else:
+                            name = "update"
+                            w.probe("rogue_half_stale_update_attempted")
                     if name == "crash_write":
                         # the promoted handle dies (SIGKILL, node loss) inside its next write, right before
                         # the k-th operation on the status / version files
